@@ -126,6 +126,13 @@ func run(r *h.Run, sc scenario) {
 	if sc.Cause == "keepalive-expiry" {
 		// only the victim gets the short maximum keep-alive (read at its Setup)
 		in.ClientMaximumKeepAlive = 40 * time.Millisecond
+		if sc.State == "outbound-traffic-flowing" {
+			// the outbound stream must not pause for longer than the read timeout
+			// (1.5 x keep-alive) or the scenario degenerates into the idle one;
+			// pauses of 50-90 ms were observed in the recording harness, so this
+			// state uses 300 ms
+			in.ClientMaximumKeepAlive = 200 * time.Millisecond
+		}
 	}
 	if sc.Cause == "setup-fails" {
 		b.Mon.AddFault(bh.HookFault{Hook: "Setup", K: 4, Before: true}) // observer, offline observer, helper, victim
@@ -190,15 +197,15 @@ func run(r *h.Run, sc scenario) {
 			}
 			stopFlow := make(chan struct{})
 			defer close(stopFlow)
-			// three pumps at 2 ms: the gaps in the outbound stream stay far below the
-			// read timeout (60 ms) also when the machine is loaded
-			for pump := 0; pump < 3; pump++ {
+			// two pumps at 5 ms: the gaps in the outbound stream stay far below the
+			// read timeout (300 ms in this state) also when one pump is delayed
+			for pump := 0; pump < 2; pump++ {
 				go func() {
 					for i := 0; ; i++ {
 						select {
 						case <-stopFlow:
 							return
-						case <-time.After(2 * time.Millisecond):
+						case <-time.After(5 * time.Millisecond):
 						}
 						if helper.Send(&packet.Publish{Message: packet.Message{Topic: "busy/x", Payload: []byte("tick")}}) != nil {
 							return
@@ -270,12 +277,41 @@ func run(r *h.Run, sc scenario) {
 		}
 	}
 	// ---- wait for the victim's broker-side client to be fully closed
+	if sc.State == "outbound-traffic-flowing" {
+		// Decided in packets, not in waiting time: the broker has written 600
+		// PUBLISH packets to the silent victim (the pumps need more than 1.5 s,
+		// five read timeouts, to produce them) and its client is still not
+		// closed: keep-alive is not enforced while traffic flows. A process-wide
+		// pause (GC under the race detector) stops the pumps as well, so it cannot
+		// fake the count.
+		for waited := 0; waited < 400; waited++ {
+			if b.WaitClosed("victim", 50*time.Millisecond) {
+				break
+			}
+			sent, first, last := 0, time.Duration(0), time.Duration(0)
+			for _, e := range b.Log.Events() {
+				if e.Who == "victim" && e.Kind == "bsend" {
+					if pp, ok := e.Pkt.(*packet.Publish); ok && pp.Message.Topic == "busy/x" {
+						if sent == 0 {
+							first = e.At
+						}
+						sent++
+						last = e.At
+					}
+				}
+			}
+			if sent >= 600 && last-first >= 1500*time.Millisecond {
+				fail("keepalive-not-enforced-while-traffic-flows", fmt.Sprintf("the broker wrote %d PUBLISH packets over %v to a victim that has been silent since its SUBSCRIBE (keep-alive 200 ms, read timeout 300 ms) and its client is still not closed", sent, last-first))
+				return
+			}
+		}
+	}
 	if !b.WaitClosed("victim", bh.Watchdog) {
 		key := "victim-not-closed"
 		if sc.State == "outbound-traffic-flowing" {
 			key = "keepalive-not-enforced-while-traffic-flows"
 		}
-		fail(key, "the victim's broker-side client never reached Closed() (keep-alive 40 ms, silent for 20 s)")
+		fail(key, "the victim's broker-side client never reached Closed() (keep-alive 40 ms / 200 ms under traffic, silent for 20 s)")
 		return
 	}
 	ci := b.ClientOf("victim")
